@@ -1,5 +1,6 @@
-import PPLV.WR.Trans2LatProofsExact
-import PPLV.WR.TransOct2LatProofsSem2
+import PPLV.WR.Trans2LatProofsMapExact
+import PPLV.WR.Trans2LatProofsRemoveExact
+import PPLV.WR.Trans2LatProofsDiff
 import Mathlib.Tactic.IntervalCases
 import Mathlib.Tactic.NormNum
 /-!
@@ -20,6 +21,11 @@ coefficient: no side condition); theorems without an `R.Sound` hypothesis hold f
 The only hypotheses besides the preconditions of the C++ call (`var < n`, ids of `vars` `< n`, …) are
 the class invariant `+∞` on the main diagonal (`DBM n` / `bdsLatDiag`), where a cell of the diagonal is
 copied or read.
+
+NOT proved (see the comments at `oct_upper_bound_exact_partial`): the exactness statements of the octagon
+operations that need "the exact strong closure is canonical" (`oct_upper_bound_exact`, `oct_remove_dims_exact`,
+`oct_remove_higher_exact`, `oct_fold_exact`), `bds_fold_exact`, `oct_map_dims_exact`.  No model of
+`time_elapse_assign` (round trip through `C_Polyhedron`).
 -/
 set_option linter.unusedVariables false
 namespace C03
@@ -202,6 +208,22 @@ example : ∃ r, bdsLatRemoveDims Rnd.ceil 2 false latM1.e [0] = some r ∧ r.di
 example : bdsLatDropPoint 2 [0] latP 0 = 2 := by
   simp [bdsLatDropPoint, bdsLatRemoveTable, bdsLatRemoveSrcs, DBM.val, latP]
 
+/-- `remove_space_dimensions(vars)`, exact arithmetic, closure run inside (flag clear): the result is
+EXACTLY the projection — every point of the result is the dropped image of a point of the shape, and
+an empty answer means an empty shape -/
+theorem bds_remove_dims_exact {n : ℕ} (m : DBM n) (vars : List ℕ) (hne : vars ≠ []) (hvs : ∀ v ∈ vars, v < n) :
+    match bdsLatRemoveDims Rnd.exact n false m.e vars with
+    | none => γB n m.e = ∅
+    | some r => r.dim = n - vars.length ∧
+        ∀ z, z ∈ γB r.dim r.m → ∃ x, x ∈ γB n m.e ∧ ∀ i, i < r.dim → bdsLatDropPoint n vars x i = z i :=
+  bdsLatRemoveDims_exact n m.e m.diag vars hne hvs
+
+example : match bdsLatRemoveDims Rnd.exact 2 false latM1.e [0] with
+    | none => γB 2 latM1.e = ∅
+    | some r => r.dim = 1 ∧
+        ∀ z, z ∈ γB r.dim r.m → ∃ x, x ∈ γB 2 latM1.e ∧ ∀ i, i < r.dim → bdsLatDropPoint 2 [0] x i = z i :=
+  bds_remove_dims_exact latM1 [0] (by simp) (by simp)
+
 /-- `remove_higher_space_dimensions(newDim)` -/
 theorem bds_remove_higher_sound (R : Rnd) (hR : R.Sound) (n : ℕ) (c : Bool) (m : Mat) (newDim : ℕ)
     (hnd : newDim ≤ n) :
@@ -232,6 +254,25 @@ example : ∃ r, bdsLatMapDims Rnd.ceil 2 true latM1.e [some 1, some 0] = some r
     intro i hi a ha
     interval_cases i <;> simp [latMaps] at ha <;> subst ha <;> simp [latP])
 example : latMapNewDim [some 1, some 0] 2 = 2 := by decide
+
+/-- `map_space_dimensions(pfunc)` for a total injective `pfunc` (`img i` the image of `Variable(i)`) that
+does not shrink the space, i.e. when the code runs no closure (a permutation, or an injection into a
+larger space): exact for EVERY bound type -/
+theorem bds_map_dims_exact (R : Rnd) {n : ℕ} (c : Bool) (m : DBM n) (pf : List (Option ℕ)) (img : ℕ → ℕ)
+    (himg : ∀ i, i < n → latMaps pf i = some (img i)) (hinj : latInjective pf n)
+    (hns : ¬ latMaxInCodomain pf n + 1 < n) :
+    ∃ r, bdsLatMapDims R n c m.e pf = some r ∧ r.dim = latMapNewDim pf n ∧
+      ∀ y, y ∈ γB r.dim r.m ↔ (fun i => y (img i)) ∈ γB n m.e :=
+  bdsLatMapDims_exact R n c m.e m.diag pf img himg hinj hns
+
+example : ∃ r, bdsLatMapDims Rnd.ceil 2 false latM1.e [some 1, some 0] = some r ∧
+    r.dim = latMapNewDim [some 1, some 0] 2 ∧
+    ∀ y, y ∈ γB r.dim r.m ↔ (fun i => y ((fun i => if i = 0 then 1 else 0) i)) ∈ γB 2 latM1.e :=
+  bds_map_dims_exact _ false latM1 _ (fun i => if i = 0 then 1 else 0)
+    (by intro i hi; interval_cases i <;> simp [latMaps])
+    (by intro i j a hi hj h1 h2
+        interval_cases i <;> interval_cases j <;> simp [latMaps] at h1 h2 <;> omega)
+    (by decide)
 
 /-- `expand_space_dimension(var, k)`: the result is EXACTLY the set of the points `y` such that
 substituting any of the copies (`var` itself or a new coordinate) for `var` gives a point of the shape
@@ -381,5 +422,87 @@ example : ∃ r, octLatMapDims Rnd.ceil 2 true latO1.e [some 1, some 0] = some r
   oct_map_dims_sound _ Rnd.ceil_sound 2 true _ _ latP _ latP_memO1 (by
     intro i hi a ha
     interval_cases i <;> simp [latMaps] at ha <;> subst ha <;> simp [latP])
+
+/-- `expand_space_dimension(var, k)`: the result is EXACTLY the set of the points `y` such that substituting
+any of the copies for `var` gives a point of the shape (every bound type, no hypothesis on the matrix) -/
+theorem oct_expand_exact (R : Rnd) (n : ℕ) (c : Bool) (m : Mat) (var k : ℕ) (hvar : var < n) :
+    ∃ r, octLatExpand R n c m var k = some r ∧ r.dim = n + k ∧
+      ∀ y, y ∈ γO (n + k) r.m ↔
+        ∀ j, (j = var ∨ (n ≤ j ∧ j < n + k)) → upd y var (y j) ∈ γO n m :=
+  octLatExpand_spec R n c m var k hvar
+
+theorem oct_expand_sound (R : Rnd) (n : ℕ) (c : Bool) (m : Mat) (var k : ℕ) (hvar : var < n) :
+    ∀ y, (∀ j, (j = var ∨ (n ≤ j ∧ j < n + k)) → upd y var (y j) ∈ γO n m) →
+      ∃ r, octLatExpand R n c m var k = some r ∧ r.dim = n + k ∧ y ∈ γO (n + k) r.m := by
+  intro y hy
+  obtain ⟨r, e, hd, h⟩ := octLatExpand_spec R n c m var k hvar
+  exact ⟨r, e, hd, (h y).2 hy⟩
+
+example : ∃ r, octLatExpand Rnd.ceil 2 true latO1.e 0 1 = some r ∧ r.dim = 3 ∧
+    (fun i => if i = 1 then (2 : ℚ) else 1) ∈ γO 3 r.m :=
+  oct_expand_sound _ 2 true _ 0 1 (by norm_num) _ (by
+    intro j hj
+    have e : upd (fun i => if i = 1 then (2 : ℚ) else 1) 0 ((fun i => if i = 1 then (2 : ℚ) else 1) j)
+        = fun i => if i = 1 then (2 : ℚ) else 1 := by
+      funext i
+      rcases hj with rfl | ⟨h1, h2⟩
+      · simp [upd]; intro h; omega
+      · have : j = 2 := by omega
+        subst this; simp [upd]; intro h; omega
+    rw [e]
+    exact latGammaO_congr (x := latP) (fun i hi => by interval_cases i <;> simp [latP]) latP_memO1)
+
+/-- `fold_space_dimensions(vars, dest)` (`vars` ascending, as `Variables_Set` iterates): for every point
+`x` of the shape and every `w ∈ vars ∪ {dest}`, the point obtained by moving `x_w` to `dest` and dropping
+the coordinates `vars` is in the result -/
+theorem oct_fold_sound (R : Rnd) (hR : R.Sound) (n : ℕ) (c : Bool) (m : Mat) (vars : List ℕ) (dest : ℕ)
+    (hne : vars ≠ []) (hsorted : vars.Pairwise (· < ·)) (hvs : ∀ v ∈ vars, v < n) (hdest : dest < n) :
+    ∀ x w, x ∈ γO n m → (w = dest ∨ w ∈ vars) →
+      ∃ r, octLatFold R n c m vars dest = some r ∧ r.dim = n - vars.length ∧
+        octLatDropPoint n vars (upd x dest (x w)) ∈ γO r.dim r.m :=
+  fun x w hx hw => octLatFold_sound hR n c m vars dest hne hsorted hvs hdest hx hw
+
+example : ∃ r, octLatFold Rnd.ceil 2 false latO1.e [1] 0 = some r ∧ r.dim = 1 ∧
+    octLatDropPoint 2 [1] (upd latP 0 (latP 1)) ∈ γO r.dim r.m :=
+  oct_fold_sound _ Rnd.ceil_sound 2 false _ [1] 0 (by simp) (by simp) (by simp) (by norm_num) latP 1 latP_memO1
+    (Or.inr (by simp))
+
+/-- `upper_bound_assign` is the LEAST octagon — `_partial`: proved for two arguments that are marked
+strongly closed and whose matrices are canonical (`octLatCanon`: the shape has a point and every stored
+off-diagonal cell is the least bound of its shape).  MISSING for the full statement (flags clear, `Rnd.exact`):
+that the matrix left by `strong_closure_assign` in exact arithmetic satisfies `octLatCanon` (the octagon
+analogue of `DBM.closure_tight`; the tree has it for bounded-difference shapes only). -/
+theorem oct_upper_bound_exact_partial (R : Rnd) (n : ℕ) (m1 m2 : Mat) (hc1 : octLatCanon n m1)
+    (hc2 : octLatCanon n m2) :
+    ∃ r, octLatUpperBound R n true m1 true m2 = some r ∧ r.dim = n ∧ r.closed = true ∧
+      ∀ d : Mat, γO n m1 ⊆ γO n d → γO n m2 ⊆ γO n d → γO n r.m ⊆ γO n d :=
+  octLatUpperBound_least_closed R n m1 m2 hc1 hc2
+
+/-- the 0-dimensional octagon is canonical -/
+example : octLatCanon 0 latO1.e :=
+  ⟨⟨latP, fun a b hab => by have := hab.1; omega⟩, fun d _ i j hi _ _ => by omega⟩
+
+/-! ## `difference_assign`: the control flow over abstract pieces
+
+`contains`, `constraints`, `relation_with`, `add_constraint`, `is_empty` are arguments of the model
+(`yContainsX`, `pieces`: see `bdsLatDifference`); what is proved is that the accumulation of the joins keeps
+every point of every piece that was joined. -/
+
+theorem bds_difference_pieces_sound (R : Rnd) (hR : R.Sound) (n : ℕ) (hn : n ≠ 0) (c1 c2 : Bool) (m1 m2 : Mat)
+    (pieces : List (Option Mat)) :
+    ∀ x y z p, x ∈ γB n m1 → y ∈ γB n m2 → some z ∈ pieces → p ∈ γB n z →
+      ∃ r, bdsLatDifference R n c1 m1 c2 m2 false pieces = some r ∧ p ∈ γB n r.m :=
+  fun x y z p hx hy hz hp => bdsLatDifference_sound hR n hn c1 c2 m1 m2 pieces hx hy hz hp
+
+theorem oct_difference_pieces_sound (R : Rnd) (hR : R.Sound) (n : ℕ) (hn : n ≠ 0) (c1 c2 : Bool) (m1 m2 : Mat)
+    (pieces : List (Option Mat)) :
+    ∀ x z p, x ∈ γO n m1 → some z ∈ pieces → p ∈ γO n z →
+      ∃ r, octLatDifference R n c1 m1 c2 m2 false pieces = some r ∧ p ∈ γO n r.m :=
+  fun x z p hx hz hp => octLatDifference_sound hR n hn c1 c2 m1 m2 pieces hx hz hp
+
+example : ∃ r, bdsLatDifference Rnd.ceil 2 false latM1.e false latM2.e false [none, some latM1.e] = some r ∧
+    latP ∈ γB 2 r.m :=
+  bds_difference_pieces_sound _ Rnd.ceil_sound 2 (by norm_num) false false _ _ _ latP latP latM1.e latP
+    latP_mem1 latP_mem2 (by simp) latP_mem1
 
 end C03
